@@ -9,6 +9,7 @@ import Serif.Wire
 import Serif.Drive.C04
 import Serif.Drive.C01
 import Serif.Drive.C02
+import Serif.Drive.C16
 open Lean Serif.Wire
 
 def dispatch (p fam : String) (c impl : Json) : P Json :=
@@ -16,6 +17,7 @@ def dispatch (p fam : String) (c impl : Json) : P Json :=
   | "C04" => Serif.Drive.C04.handle fam c impl
   | "C01" => Serif.Drive.C01.handle fam c impl
   | "C02" => Serif.Drive.C02.handle fam c impl
+  | "C16" => Serif.Drive.C16.handle fam c impl
   | _ => .error s!"unknown property {p}"
 
 def answer (line : String) : Json :=
